@@ -149,6 +149,23 @@ def build_rescaled_after_step(topo, P, factor, first_engine=None):
     return built
 
 
+def build_turnrates_reassigned(topo, P, first_engine=None):
+    """network built with OTHER turn rates (link k: (k + 2) x its turn rate, so the shares differ), stepped once, then every
+    link's `turnrate` attribute is assigned its real value (time-varying splitting rates; no construction call): whatever the
+    first step derived from the turn rates must not survive."""
+    import numpy as np
+
+    P0 = dict(P)
+    for k, l in enumerate(topo.links):
+        P0[f"beta_{l.name}"] = (k + 2) * P[f"beta_{l.name}"]
+    built = T_.build(topo, P0)
+    with np.errstate(all="ignore"):
+        built.net.step(engine=first_engine or _first_numpy_engine(), **T_.model_kwargs(topo, P))
+    for l in topo.links:
+        built.links[l.name].turnrate = P[f"beta_{l.name}"]
+    return built
+
+
 def build_reads_then_bulk(topo, P, first_engine=None):
     """nodes and the first link are added one by one, every lookup is read, then ALL remaining links arrive in one
     add_links call (then origins and destinations): lookups cached before the bulk call must not survive it."""
